@@ -228,10 +228,12 @@ def layer_case_strategy():
                 {"pk": "const", "name": "sid", "pos": 0, "bit": 0, "dct": dict(u8), "v": sid},
                 {"pk": "value", "name": "arg", "pos": 1, "bit": 0, "dop": dop(f"da{i}"), "default": None}]})
         for i, sid in enumerate(sids):
+            # the echoed range may straddle the end of the request's constant prefix (constant SID + free byte)
+            rp, n = draw(st.sampled_from([(1, 1), (0, 2), (0, 1), (0, 2)]))
             msgs.append({"kind": "response", "rtype": "POS-RESPONSE", "id": f"pr{i}", "svc": i, "params": [
                 {"pk": "const", "name": "sid", "pos": 0, "bit": 0, "dct": dict(u8), "v": sid + 0x40},
-                {"pk": "matchreq", "name": "echo", "pos": 1, "rpos": 1, "n": 1},
-                {"pk": "value", "name": "res", "pos": 2, "bit": 0, "dop": dop(f"dr{i}"), "default": None}]})
+                {"pk": "matchreq", "name": "echo", "pos": 1, "rpos": rp, "n": n},
+                {"pk": "value", "name": "res", "pos": 1 + n, "bit": 0, "dop": dop(f"dr{i}"), "default": None}]})
             if draw(st.booleans()):
                 vals = sorted(draw(st.sets(st.sampled_from([0x00, 0x11, 0x22, 0x31]), min_size=1, max_size=3)))
                 msgs.append({"kind": "response", "rtype": "NEG-RESPONSE", "id": f"nr{i}", "svc": i, "params": [
